@@ -19,7 +19,7 @@ func init() {
 	})
 	Register(&Rule{
 		Name:  "R-RESUME-REPORT",
-		Props: []string{"C04", "C06", "C17"},
+		Props: []string{"C04", "C06", "C17", "C03"},
 		Min:   6,
 		Doc: "every FileResumeInfo.Bitmap sent by a receiver is sidecar.MarshalBitmap() and LastVerifiedChunk is HighestComplete() of that same sidecar field (the one the chunk marks update), or totalChunks when nothing is complete; " +
 			"on the sender every condition that consults the resume bitmap also requires index < forceSendFrom for the same index (a chunk above the verification point is never skipped); " +
@@ -530,6 +530,28 @@ func runResumeReport(c *Ctx) {
 					_ = gi
 					c.Check(mis.Passed(g, r, "mismatch"), "hash-repair/resend-on-mismatch", as.Pos(), "resendPending = true on the mismatch branch of the verification hash comparison",
 						"resendPending is set on a path that is not the hash-mismatch branch")
+					// and the mismatch alone decides: the innermost condition around the assignment has no further conjunct
+					var inner *ast.IfStmt
+					ast.Inspect(g.Body, func(m ast.Node) bool {
+						if is, ok := m.(*ast.IfStmt); ok && is.Body.Pos() <= as.Pos() && as.End() <= is.Body.End() {
+							inner = is
+						}
+						return true
+					})
+					if inner != nil {
+						var extra []string
+						for _, a := range Implied(inner.Cond, true) {
+							if id, _, ok := mis.Vias[0].Cond(g, a.E); !ok || id != "mismatch" {
+								if a.Val {
+									extra = append(extra, types.ExprString(a.E))
+								} else {
+									extra = append(extra, "!("+types.ExprString(a.E)+")")
+								}
+							}
+						}
+						c.Check(len(extra) == 0, "hash-repair/mismatch-alone-decides", inner.Pos(), "every hash mismatch schedules the re-send",
+							"a verification-hash mismatch schedules the re-send only if also "+strings.Join(extra, " && ")+": when that does not hold the damaged chunk is neither re-sent explicitly nor (for a file reported all-complete, where no tail is forced) with the schedule, FileEnd goes out and both sides report success")
+					}
 				}
 			})
 			for _, kid := range g.Kids {
